@@ -72,6 +72,10 @@ type Stream struct {
 	// Contains frames waiting to be sent to the peer. Is emptied by AsyncFlush or Flush.
 	pendingFrames []*Frame
 
+	// True while an AsyncFlush is writing pendingFrames; callers arriving meanwhile wait in flushWaiters.
+	flushing     bool
+	flushWaiters []func(err error)
+
 	// Optional callback invoked when a control frame is received.
 	controlCallback ControlCallback
 
@@ -174,6 +178,8 @@ func (s *Stream) reset() {
 		s.pendingFrames[i] = nil
 	}
 	s.pendingFrames = s.pendingFrames[:0]
+	s.flushing = false
+	s.flushWaiters = nil
 }
 
 // Returns the stream through which IO is done.
@@ -738,6 +744,34 @@ func (s *Stream) Flush() (err error) {
 //
 // This call does not block.
 func (s *Stream) AsyncFlush(callback func(err error)) {
+	if s.flushing {
+		// A flush is already in flight, for instance the read path flushing a Pong while the application starts a
+		// write. The underlying stream takes one asynchronous write at a time: a second one would replace the first
+		// one's completion handler, which would then never run. The flush in flight also writes every frame queued in
+		// the meantime, so it is enough to be told when it is done.
+		s.flushWaiters = append(s.flushWaiters, callback)
+		return
+	}
+
+	if len(s.pendingFrames) == 0 {
+		callback(nil)
+		return
+	}
+
+	s.flushing = true
+	s.asyncFlush(func(err error) {
+		s.flushing = false
+		waiters := s.flushWaiters
+		s.flushWaiters = nil
+
+		callback(err)
+		for _, waiter := range waiters {
+			waiter(err)
+		}
+	})
+}
+
+func (s *Stream) asyncFlush(callback func(err error)) {
 	if len(s.pendingFrames) == 0 {
 		callback(nil)
 	} else {
@@ -750,7 +784,7 @@ func (s *Stream) AsyncFlush(callback func(err error)) {
 			if err != nil {
 				callback(err)
 			} else {
-				s.AsyncFlush(callback)
+				s.asyncFlush(callback)
 			}
 		})
 	}
